@@ -52,7 +52,9 @@ LEVEL_NOTE = ('Trusted: Coq kernel, table extractor, extraction + OCaml driver, 
               'invalid value raises while saving (the harness only checks that nothing is swallowed for files the bot wrote); values written through the plugin '
               'API under a non-channel name or for a network that is not connected are saved but invisible to reads (mirrored, not judged); rfc1459 case folding '
               'of channel names ([]\\~ vs {}|^: the registry folds with str.lower only); the locale encoding of open() vs the UTF-8 writer for non-ASCII help '
-              'comments; Windows (os.linesep in wrapped values; the repaired C15.F33 is checked with os.name patched); reload histories are generated for scalar classes only.')
+              'comments; Windows (os.linesep in wrapped values; the repaired C15.F33 is checked with os.name patched); reload histories are generated for scalar classes only, and for classes whose __str__ goes through self() (Boolean, Integer family, lists) '
+              'histories with an in-process reload are checked by the direct oracle only: _makeChild(str(parent)) lazily reloads the parent when a child is created, '
+              'which the session model (tensure) does not represent.')
 TECHNIQUE = 'Coq proof (induction over strings / operation histories) + regenerated tables and class inventory + extracted-model differential correspondence'
 EXPLANATION = 'C15: registry save/reload, reject-atomic and specific-value model of src/registry.py; theorems in coq/C15/Props.v'
 
@@ -335,12 +337,36 @@ def validator_bits(q, text):
 
 
 # ---------------------------------------------------------------- known-finding classes
+_MRO = {}
+
+
+def inherits(q, base):
+    """by the regenerated class table (t15), not by name: is [base] among the ancestors of inventory class q?"""
+    if not _MRO:
+        classes = t15._classes()
+        memo = {}
+        for x, *_ in mods().inv:
+            try:
+                _MRO[x] = t15._mro(x, classes, memo)
+            except Exception:
+                _MRO[x] = [x]
+    return base in _MRO.get(q, [q])
+
+
 def cls_comma_set(inp):
-    return (inp.get('op') == 'reload' and inp['cls'] in ('registry.CommaSeparatedSetOfStrings',) and inp['value'][0] == 3
+    """C15.F23: every inventory class that inherits the set()/__str__ of registry.CommaSeparatedSetOfStrings"""
+    return (inp.get('op') == 'reload' and inherits(inp['cls'], 'registry.CommaSeparatedSetOfStrings') and inp['value'][0] == 3
             and any(x != x.strip() for x in inp['value'][1]))
 
 
-CLASSES = {'comma_set_edge_blank': cls_comma_set}
+def cls_blank_phrases(inp):
+    """C15.F34: plugins/BadWords LastModifiedCommaSeparatedSetOfStrings.set maps a blank text to the empty set, but a set
+    whose elements are all empty/blank is written as a blank text"""
+    return (inp.get('op') == 'reload' and inherits(inp['cls'], 'BadWords.LastModifiedCommaSeparatedSetOfStrings') and inp['value'][0] == 3
+            and len(inp['value'][1]) > 0 and ', '.join(inp['value'][1]).strip() == '')
+
+
+CLASSES = {'comma_set_edge_blank': cls_comma_set, 'badwords_blank_phrases': cls_blank_phrases}
 
 # witnesses of repaired defects (findings/C15.json "fixed"): run first on every check, nothing attributes them to a finding
 CORPUS_FIXED = [
@@ -1284,6 +1310,12 @@ def run_tgens(ctx, inp, mo):
                 for k in state:
                     if state[k] == 'unsaved':
                         state[k] = 'saved'
+    # outside the session model: for classes whose __str__ goes through self() (Value.__str__, SeparatedListOf.__str__),
+    # creating a child after an in-process reload lazily reloads the PARENT first (_makeChild uses str(parent)); the model's
+    # tensure reads the parent's raw value.  Such histories are checked by the direct oracle only.
+    strcalls = any(wire_kind(v['cls'])[0] in (5, 6, 7, 8) for v in inp['vars'])
+    if mo is not None and strcalls and any(o[0] == 'reload' for ops_ in inp['gens'] for o in ops_):
+        mo = None
     if mo is not None:
         mm = []
         for x in mo:
